@@ -314,7 +314,8 @@ def check_ops_against_contracts(ops):
     cs = vlib.all_contracts()
     problems = []
     for op in ops:
-        items = [c for c in cs.get(op["file"], []) if c["fn"] == op["fn"] and c["ordinal"] == op["ordinal"]]
+        cands = [c for c in cs.get(op["file"], []) if c["fn"] == op["fn"]]
+        items = cands[op["ordinal"] - 1: op["ordinal"]]
         if not items:
             problems.append("%s: no contract on %s fn %s#%d" % (op["name"], op["file"], op["fn"], op["ordinal"]))
             continue
